@@ -247,7 +247,7 @@ func (g *advGUI) next() string {
 	case 4:
 		return "ucinewgame"
 	case 5:
-		return []string{"setoption name Hash value 0", "setoption name Hash value 1", "setoption name Depth value 1", "setoption name Depth value 0", "setoption name Noise value 50", "setoption name OwnBook value false", "setoption name OwnBook value true"}[t.Choose(7)]
+		return []string{"setoption name Hash value 0", "setoption name Hash value 1", "setoption name Depth value 1", "setoption name Depth value 0", "setoption name Noise value 50", "setoption name OwnBook value false", "setoption name OwnBook value true", "setoption name Noise value 1", "setoption name Noise value 2", "setoption name Noise value 0"}[t.Choose(10)]
 	case 6: // garbage or torn line
 		g.res.Fault("garbage-line")
 		g.mayExit = true
